@@ -18,7 +18,7 @@ HASH_SHARDS = [0, 1]
 PROFILE = grammar.profile(
     mixin_variants=True, p_yaml=1.0, p_foreign_request=0.35, p_add_iam_methods=0.15, p_lro=0.3, p_list=0.3, p_get=0.6,
     p_create=0.2, p_update=0.2, p_delete=0.3, p_custom=0.3, p_sstream=0.0, p_cstream=0.0, p_bidi=0.0,
-    p_service_config=0.5, resources=(1, 2), transports=["grpc", "grpc+rest", "grpc+rest", "rest"])
+    p_service_config=0.5, resources=(1, 2), transports=["grpc", "grpc+rest", "grpc+rest", "rest"], p_two_services=0.45)
 
 BUDGET = {
     "quick": {"worlds": 120, "runs": 30, "wall_cap": 300, "world_wall": 90},
@@ -26,7 +26,7 @@ BUDGET = {
 }
 REQUIRED_PROBES = ["operations_mixin", "iam_mixin", "locations_mixin", "api_not_listed", "rule_subset", "iam_yields_to_own_rpc",
                    "own_iam_rpc_unruled_keeps_mixins", "add_iam_methods", "grpc_call", "async_call", "rest_call",
-                   "rest_additional_binding", "exposure_checked", "nothing_exposed", "own_rpc_with_mixin_name"]
+                   "rest_additional_binding", "exposure_checked", "nothing_exposed", "own_rpc_with_mixin_name", "second_service_client"]
 
 MIXINS = {
     "google.longrunning.Operations": {
@@ -95,19 +95,21 @@ def gen_scenarios(spec, rng, n):
     transports = spec["options"]["transport"].split("+")
     kinds = (["sync", "async"] if "grpc" in transports else []) + (["rest"] if "rest" in transports else [])
     out = []
+    svcs = sorted({s["name"] for fs, s, m in grammar.all_methods(spec)})
     for i in range(n):
         client = kinds[i % len(kinds)]
+        svc = svcs[(i // len(kinds)) % len(svcs)]          # mixins must be offered by EVERY service's client
         names = sorted(ex)
         rng.shuffle(names)
-        ops = [{"id": "probe", "kind": "introspect", "service": _first_service(spec), "method": "-", "form": "none"}]
+        ops = [{"id": "probe", "kind": "introspect", "service": svc, "method": "-", "form": "none"}]
         for j, name in enumerate(names):
             api, rule = ex[name]
             if client == "rest" and rule is None:
                 continue
-            ops.append(gen_op(rng, name, api, rule, f"o{j}", client, spec))
+            ops.append(gen_op(rng, name, api, rule, f"o{j}", client, spec, svc))
         if client != "rest":
             for fs, s, m in grammar.all_methods(spec):
-                if m.get("own_mixin_name") and s["name"] == _first_service(spec):
+                if m.get("own_mixin_name") and s["name"] == svc:
                     ops.insert(rng.randint(1, len(ops)), {"id": "own-" + m["name"], "kind": "unary", "service": s["name"], "method": m["name"],
                                                           "form": "dict", "request": {"name": "own/x1"}, "call": {}, "server": [{"reply": {}}]})
         out.append({"client": client, "actors": [{"start": 0.0, "ops": ops}], "jitter_default": 0.0})
@@ -126,7 +128,7 @@ def _bindings(rule):
     return out
 
 
-def gen_op(rng, name, api, rule, oid, client, spec):
+def gen_op(rng, name, api, rule, oid, client, spec, svc=None):
     req_full, resp_full, key = MIXINS[api][name]
     from google.protobuf import descriptor_pool
     from .. import protos  # noqa (registers the pb2 modules)
@@ -146,7 +148,7 @@ def gen_op(rng, name, api, rule, oid, client, spec):
     rdesc = descriptor_pool.Default().FindMessageTypeByName(resp_full)
     reply = values.rand_valuation(rng, rdesc, 0, 2, 0.5)
     c04.prune_empty(reply)
-    return {"id": oid, "kind": "mixin", "service": _first_service(spec), "method": name, "api": api,
+    return {"id": oid, "kind": "mixin", "service": svc or _first_service(spec), "method": name, "api": api,
             "form": rng.choice(["msg", "dict"]), "request": val, "reply": reply, "req_full": req_full, "resp_full": resp_full,
             "binding": b}
 
@@ -277,7 +279,10 @@ def judge(spec, scenario, history):
     for e in history:
         if e["k"] != "exposure":
             continue
-        want = sorted(set(ex) | (own_rpcs(spec, _first_service(spec)) & set(all_mixin_names())))
+        probe_svc = next(op["service"] for a in scenario["actors"] for op in a["ops"] if op["kind"] == "introspect")
+        want = sorted(set(ex) | (own_rpcs(spec, probe_svc) & set(all_mixin_names())))
+        if probe_svc != _first_service(spec):
+            _bump(probes, "second_service_client")
         _bump(probes, "exposure_checked")
         if not ex:
             _bump(probes, "nothing_exposed")
